@@ -685,3 +685,17 @@ func runWithDeadlockProbe(fn string, f func()) (done, stuck bool) {
 	}
 	return false, false
 }
+
+// goid returns the id of the calling goroutine (parsed from its stack header).
+func goid() int64 {
+	var buf [64]byte
+	n := runtime.Stack(buf[:], false)
+	var id int64
+	for _, ch := range buf[len("goroutine "):n] {
+		if ch < '0' || ch > '9' {
+			break
+		}
+		id = id*10 + int64(ch-'0')
+	}
+	return id
+}
